@@ -8,6 +8,9 @@ MANIFEST = dict(engine="nsim", category="exploration", technique='runtime monito
 
 def setup():
     simlib.nsim_bin()
+    from .. import e2e
+    e2e.ninja_bin()
+    e2e.vtool_bin()
 
 
 def run(ctx):
@@ -28,6 +31,10 @@ def run(ctx):
     incr.run_late_deps(ctx, "C02", n // 6)
     # self-regenerating manifests: build.ninja is a generator output selected by a config file
     incr.run_regen(ctx, "C02", n // 10, size_range=(2, 6))
+    # the real binary: build-log recompaction at start-up (NinjaMain::IsPathDead is not part of the simulator) over projects with
+    # dyndep-provided outputs; an unchanged tree stays "no work to do" whatever the logs' length
+    from .. import e2e
+    e2e.recompaction_scenarios(ctx, "C02", 40 if quick else 800)
     ctx.rule = ("seeded random graphs of 3..%d statements x histories of 2..5 change+build rounds (plus immediate re-runs), plus histories in which ninja regenerates and reloads its own manifest; "
                 "distinct_nontrivial = distinct (scenario, build step) pairs judged by this property's monitor that follow at "
                 "least one change" % (9 if quick else 14))
